@@ -53,6 +53,11 @@ Qed.
 Lemma be_enc2_split (n : N) (b : bytes) : firstn 2 (be_enc 2 n ++ b) = be_enc 2 n /\ skipn 2 (be_enc 2 n ++ b) = b.
 Proof. split; [apply firstn_app_len|apply skipn_app_len]; apply be_enc_length. Qed.
 
+Lemma take_len_all (b : bytes) : take (len b) b = b.
+Proof. unfold take, len. rewrite Nat2N.id. apply firstn_all. Qed.
+Lemma drop_len_all (b : bytes) : drop (len b) b = [].
+Proof. unfold drop, len. rewrite Nat2N.id. apply skipn_all. Qed.
+
 Theorem ske_roundtrip kx : wsound (w_ske kx).
 Proof.
   intros [hint [ct [cv [pk [h [s sg]]]]]] W. cbn [wwf wenc wdec w_ske] in *. unfold ske_wf in W.
@@ -85,10 +90,16 @@ Proof.
         destruct sg; [|discriminate]. cbn [wwf wenc w_opt_end andb negb N.eqb is_nil' orb].
         split; [reflexivity|]. eexists. split; [reflexivity|]. rewrite !app_nil_r.
         split; reflexivity.
-      - do 5 (apply andb_prop in Wsig; destruct Wsig as [Wsig ?]).
+      - apply andb_prop in Wsig; destruct Wsig as [Wsig Hsch].
+        apply andb_prop in Wsig; destruct Wsig as [Wsig Hswf].
+        apply andb_prop in Wsig; destruct Wsig as [Wsig Hsgok].
+        apply andb_prop in Wsig; destruct Wsig as [Wsig Hsglen].
+        apply andb_prop in Wsig; destruct Wsig as [Wsig Hsgnn].
         apply negb_true_iff in Wsig.
+        assert (Hsl : len sg < 65536) by (clear - Hsglen; lia).
+        assert (Hscl : sig_scheme_of (h, s) < 65536) by (clear - Hsch; apply N.ltb_lt; exact Hsch).
         assert (Hsgne : is_nil' sg = false) by (destruct sg; [discriminate|reflexivity]).
-        cbn [wwf wenc w_opt_end w_lenient]. rewrite (ske_sig_enc h s sg) by lia.
+        cbn [wwf wenc w_opt_end w_lenient]. rewrite (ske_sig_enc h s sg) by exact Hsl.
         rewrite Wsig, Hsgne. cbn [negb andb orb].
         destruct (N.eqb_spec s 0) as [|_]; [contradiction|]. cbn [andb].
         assert (Wsg : wf c_ske_sig ((h, s), sg) = true).
@@ -96,10 +107,12 @@ Proof.
             cbn [wf wwf wenc fst snd]. change (256 ^ N.of_nat 2) with 65536.
           assert (Hin : sig_in_table (sig_scheme_of (h, s)) = true).
           { unfold sig_in_table. unfold sigalg_wf in *. destruct (sig_lookup (sig_scheme_of (h, s))); [reflexivity|discriminate]. }
-          rewrite Hin. repeat match goal with |- _ && _ = true => apply andb_true_intro; split end; try assumption; try reflexivity; try lia. }
+          rewrite Hin, Hswf, Hsgok. cbn [andb].
+          destruct (N.ltb_spec (sig_scheme_of (h, s)) 65536) as [_|Hbad]; [|clear - Hbad Hscl; lia].
+          destruct (N.ltb_spec (len sg) 65536) as [_|Hbad]; [|clear - Hbad Hsl; lia]. reflexivity. }
         rewrite Wsg. split.
         { cbn [andb]. destruct (be_enc 2 (sig_scheme_of (h, s)) ++ be_enc 2 (len sg) ++ sg) eqn:Ee; [|reflexivity].
-          apply (f_equal (@length N)) in Ee. rewrite !app_length, !be_enc_length in Ee. cbn in Ee. lia. }
+          apply (f_equal (@length N)) in Ee. rewrite !app_length, !be_enc_length in Ee. cbn [length] in Ee. clear - Ee. lia. }
         eexists. split; [reflexivity|]. rewrite <- !app_assoc. split; reflexivity. }
     destruct Wst as [Wst [e [Ee [Eske Eflat]]]]. rewrite Eske.
     eexists. split; [reflexivity|].
@@ -108,7 +121,7 @@ Proof.
     { unfold w_ske_ecdhe, w_seq, w_bind in Ee; cbn [wenc fst snd] in Ee.
       rewrite (ecdhe_params_enc ct cv pk) in Ee by assumption.
       destruct (wenc (w_opt_end (w_lenient c_ske_sig)) sgo) as [e2|]; [|discriminate].
-      inversion Ee; subst e. rewrite !len_app, !len_be_enc. lia. }
+      inversion Ee; subst e. rewrite !len_cons. clear. lia. }
     unfold ske_dec. destruct hint as [hb|].
     + (* identity hint present: PSK + ECDHE *)
       split_andb.
@@ -140,7 +153,7 @@ Proof.
     rewrite be_dec_enc by (change (256 ^ N.of_nat 2) with 65536; lia).
     destruct (N.leb_spec (len hb) (N.of_nat 2 + len hb - 2)) as [_|]; [|lia].
     change (kx_psk 2) with true. cbn [andb].
-    replace hb with (hb ++ []) at 2 3 by apply app_nil_r. rewrite take_app_exact, drop_app_exact.
+    rewrite take_len_all, drop_len_all.
     cbn [is_nil']. reflexivity.
 Qed.
 
@@ -193,12 +206,17 @@ Proof.
   apply andb_prop in H. destruct H as [_ Hl]. rewrite (IH Hl). reflexivity.
 Qed.
 
+Lemma flat_be1_length (l : list N) : length (flat_map (be_enc 1) l) = length l.
+Proof.
+  induction l as [|x l IH]; [reflexivity|]. cbn [flat_map]. rewrite app_length, be_enc_length, IH. reflexivity.
+Qed.
+
 Lemma cr_types_enc tys : N.of_nat (length tys) <= 255 -> forallb (fun t => t <? 256) tys = true ->
   enc c_cr_types tys = Some (be_enc 1 (N.of_nat (length tys)) ++ flat_map (be_enc 1) tys).
 Proof.
   intros Hl Hb. unfold c_cr_types, c_vec, w_map; cbn [enc wenc w_list]. rewrite (list_enc_u1 _ Hb).
   assert (Hlen : len (flat_map (be_enc 1) tys) = N.of_nat (length tys)).
-  { unfold len. f_equal. clear. induction tys as [|x l IH]; [reflexivity|]. cbn [flat_map length be_enc app]. now rewrite IH. }
+  { unfold len. rewrite flat_be1_length. reflexivity. }
   rewrite Hlen. change (256 ^ N.of_nat 1) with 256.
   destruct (N.ltb_spec (N.of_nat (length tys)) 256) as [_|]; [reflexivity|lia].
 Qed.
@@ -213,12 +231,12 @@ Proof.
     destruct Hb as [Hx Hl]. rewrite (IH Hl). unfold c_u; cbn [wf]. change (256 ^ N.of_nat 1) with 256. rewrite Hx. reflexivity. }
   rewrite Hw. cbn [andb].
   assert (Hlen : len (flat_map (be_enc 1) tys) = N.of_nat (length tys)).
-  { unfold len. f_equal. clear. induction tys as [|x l IH]; [reflexivity|]. cbn [flat_map length be_enc app]. now rewrite IH. }
+  { unfold len. rewrite flat_be1_length. reflexivity. }
   rewrite Hlen. change (256 ^ N.of_nat 1) with 256. destruct (N.ltb_spec (N.of_nat (length tys)) 256); [reflexivity|lia].
 Qed.
 
 (* the signature-scheme list of a canonical value decodes back to itself *)
-Lemma chunk2_sigs sigs rest : forallb sigalg_wf sigs = true -> forallb (fun a => sig_scheme_of a <? 65536) sigs = true ->
+Lemma chunk2_sigs sigs : forallb sigalg_wf sigs = true -> forallb (fun a => sig_scheme_of a <? 65536) sigs = true ->
   filter_map sig_lookup (chunk2 (flat_map (fun a => be_enc 2 (sig_scheme_of a)) sigs)) = sigs /\
   len (flat_map (fun a => be_enc 2 (sig_scheme_of a)) sigs) = N.of_nat (length sigs) * 2.
 Proof.
@@ -263,7 +281,7 @@ Proof.
   eexists. split; [reflexivity|].
   set (es := flat_map (fun a => be_enc 2 (sig_scheme_of a)) sigs).
   set (ec := flat_map (fun ca => be_enc 2 (len ca) ++ ca) cas).
-  destruct (chunk2_sigs sigs [] ltac:(assumption) ltac:(assumption)) as [Hsig Hsl]. fold es in Hsig, Hsl.
+  destruct (chunk2_sigs sigs ltac:(assumption) ltac:(assumption)) as [Hsig Hsl]. fold es in Hsig, Hsl.
   destruct (cas_enc_len cas ltac:(assumption) ltac:(assumption)) as [Hce [Hcl Hcw]]. fold ec in Hce, Hcl.
   unfold cr_dec.
   (* total length >= 5 *)
